@@ -83,7 +83,10 @@ def _dyn(draw, big):
             # ... or creates the propagator object while other energy units are current
             "ctor_units": draw(st.sampled_from([None, None, None, "1/cm", "eV"])),
             # correlation times that are not a whole number of femtoseconds
-            "tau_frac": draw(st.sampled_from([0, 0, 0.5, 0.25, 0.8]))}
+            "tau_frac": draw(st.sampled_from([0, 0, 0.5, 0.25, 0.8])),
+            # the populations of the hierarchy members are asked for along with the propagation (an option that must not
+            # change the result)
+            "report": draw(st.sampled_from([False, False, True]))}
 
 
 def strategy(tier):
@@ -168,7 +171,10 @@ def _index(case, ctx):
               rtol=1e-12, scale=max(1e-9, depth * float(numpy.max(gam))), where=where)
 
 
-def _propagate(qr, agg, depth, ta, rho0, route="ctor", spec=None, decouple=0, units=None, ctor_units=None):
+REPORT = {"ok": True}       # whether the last propagation that was asked to report hierarchy populations did so
+
+
+def _propagate(qr, agg, depth, ta, rho0, route="ctor", spec=None, decouple=0, units=None, ctor_units=None, report=False):
     from quantarhei.qm.liouvillespace.heom import KTHierarchy, KTHierarchyPropagator
     ham = agg.get_Hamiltonian()
     sbi = agg.get_SystemBathInteraction()
@@ -204,11 +210,15 @@ def _propagate(qr, agg, depth, ta, rho0, route="ctor", spec=None, decouple=0, un
         prop.propagate(qr.ReducedDensityMatrix(data=rho0.copy()))
         with qr.energy_units("1/cm"):
             ham.remove_cutoff_coupling(abs(float(decouple)) + 1.0)
+    kw = {"report_hierarchy": True} if report else {}
     if units:
         with qr.energy_units(units):
-            rt = prop.propagate(qr.ReducedDensityMatrix(data=rho0.copy()))
+            rt = prop.propagate(qr.ReducedDensityMatrix(data=rho0.copy()), **kw)
     else:
-        rt = prop.propagate(qr.ReducedDensityMatrix(data=rho0.copy()))
+        rt = prop.propagate(qr.ReducedDensityMatrix(data=rho0.copy()), **kw)
+    if report:
+        hp = getattr(hy, "hpop", None)
+        REPORT["ok"] = hp is not None and numpy.shape(hp) == (ta.length, hy.hsize)
     return numpy.array(rt.data)
 
 
@@ -238,7 +248,12 @@ def _dynamics(case, ctx):
     Om[1:] = numpy.mean(numpy.diag(H)[1:])
     Hr = H - numpy.diag(Om)
 
+    rep_ = bool(case.get("report"))
+
     def valid(data, tag):
+        if rep_ and not REPORT["ok"]:
+            ctx.fail("dynamics/hierarchy-populations-reported", tag)
+        REPORT["ok"] = True
         tr = numpy.trace(data, axis1=1, axis2=2)
         ctx.close("dynamics/trace", tr, numpy.ones(len(tr)), rtol=1e-10, atol=1e-12, where=tag)
         ctx.close("dynamics/hermitian", data, numpy.conj(numpy.transpose(data, (0, 2, 1))), rtol=1e-10, scale=1.0,
@@ -248,6 +263,9 @@ def _dynamics(case, ctx):
     pu = case.get("prop_units")
     if pu:
         ctx.label("propagated-in-units:" + pu)
+    rep_ = bool(case.get("report"))
+    if rep_:
+        ctx.label("hierarchy-populations-reported")
     cunits = case.get("ctor_units")
     if cunits:
         ctx.label("propagator-created-in-units:" + cunits)
@@ -266,6 +284,28 @@ def _dynamics(case, ctx):
         def bath_parameters():
             h = a_if.get_KTHierarchy(2)
             return numpy.array(h.gamma, dtype=float), numpy.array(h.lam, dtype=float)
+
+        def shared_function_object():
+            # all molecules given one and the same correlation function object (as the library's own examples do)
+            from quantarhei.qm.liouvillespace.heom import KTHierarchy
+            b0 = spec["bath"][0]
+            t0_, nt_, dt_ = spec["time"]
+            time = qr.TimeAxis(t0_, int(nt_), dt_)
+            with qr.energy_units("1/cm"):
+                cf = qr.CorrelationFunction(time, gens.bath_params(b0, spec["T"]))
+                ms = []
+                for i in range(n):
+                    m = qr.Molecule([0.0, float(spec["E"][i])])
+                    m.set_transition_environment((0, 1), cf)
+                    ms.append(m)
+                a2 = qr.Aggregate(molecules=ms)
+            a2.build()
+            h = a2.get_KTHierarchy(2)
+            return int(h.nbath), int(h.hsize), numpy.array(h.hinds).shape
+        ok, sh = guarded(ctx, "index/shared-function-object", shared_function_object)
+        if ok and (sh[0] != n or sh[1] != math.comb(n + 2, 2) or tuple(sh[2]) != (math.comb(n + 2, 2), n)):
+            ctx.fail("index/shared-function-object", "size", nbath=sh[0], size=sh[1], shape=list(sh[2]), sites=n)
+            return
 
         def bath_parameters_manual():
             # the same from a hand-made system-bath interaction that was put together inside a units context
@@ -309,7 +349,7 @@ def _dynamics(case, ctx):
     if kind in ("b", "c"):
         depth = case["depth"]
         ok, data = guarded(ctx, "dynamics/propagate", lambda: _propagate(qr, agg, depth, ta, rho0, route, spec=spec, units=pu,
-                                                                             ctor_units=cunits), kind)
+                                                                             ctor_units=cunits, report=rep_), kind)
         if not ok:
             return
         if data.shape != (nt, n + 1, n + 1):
@@ -353,8 +393,8 @@ def _dynamics(case, ctx):
                 Jc = [[0] * n for _ in range(n)]
                 Jc[0][1] = Jc[1][0] = decouple
                 a = gens.make_aggregate(qr, dict(spec, J=Jc))
-                return _propagate(qr, a, depth, ta, rho0, "ctor", decouple=decouple, units=pu, ctor_units=cunits)
-            return _propagate(qr, agg, depth, ta, rho0, route, spec=spec, units=pu, ctor_units=cunits)
+                return _propagate(qr, a, depth, ta, rho0, "ctor", decouple=decouple, units=pu, ctor_units=cunits, report=rep_)
+            return _propagate(qr, agg, depth, ta, rho0, route, spec=spec, units=pu, ctor_units=cunits, report=rep_)
         ok, data = guarded(ctx, "dynamics/propagate", one_depth, "d" + ("/decoupled-after-first-use" if decouple else ""))
         if not ok:
             return
